@@ -44,6 +44,11 @@
    environment: ECtxCancel (the caller's context is cancelled), EServerClose (Server.Close),
    EReplyArrives, and the choice among the send outcomes that configuration and state permit.
 
+   Rate limiting (C20).  Whether a send asks the limiter, and how, is decided per send from the number of
+   datagrams written so far ([send_rated], [send_wait]).  With [qc_exact] the limiter is an exact budget
+   of [q_budget] units (rate.NewLimiter(0, b)): a rated send with no unit left fails at once (CRate),
+   otherwise it takes one unit, which only a failed socket write gives back.
+
    Every label list is a schedule: a label that is not enabled is skipped ([step_en]). *)
 From Dht Require Import Base.
 From DhtGen Require Import Params.
@@ -71,9 +76,24 @@ Inductive cpc := CStart | CSelect | CCancel | CJoin | CDereg | CReturned.
 Inductive spc := SIdle | SWait (fired : bool) | SDone.
 Inductive hpc := HIdle | HPending | HDone.
 
+(* QueryRateLimiting *)
+Record rlcfg := mkRL { rl_not_first : bool; rl_not_any : bool; rl_wait_on_retries : bool; rl_no_wait_first : bool }.
+Definition rl_zero : rlcfg := mkRL false false false false.
+
+(* transactionQuerySender's closure, evaluated for each send with w = *writes (datagrams written so far):
+   wait  = (w == 0 ? !NoWaitFirst : WaitOnRetries)       -> SendLimiter.Wait(ctx) instead of Allow()
+   rated = !NotAny && (w == 0 ? !NotFirst : true)         -> the send consumes one limiter token *)
+Definition send_wait (r : rlcfg) (w : nat) : bool :=
+  match w with O => negb (rl_no_wait_first r) | _ => rl_wait_on_retries r end.
+Definition send_rated (r : rlcfg) (w : nat) : bool :=
+  negb (rl_not_any r) && match w with O => negb (rl_not_first r) | _ => true end.
+
 Record qcfg := mkQC {
   qc_tries : nat;        (* NumTries after defaulting *)
-  qc_blocked : bool }.   (* destination is in the server's IP blocklist *)
+  qc_blocked : bool;     (* destination is in the server's IP blocklist *)
+  qc_rl : rlcfg;         (* QueryInput.RateLimiting *)
+  qc_exact : bool }.     (* the limiter is an exact budget (rate.NewLimiter(0, b)): Allow() and Wait() both
+                            fail at once when no unit is left; otherwise a rated send may be refused at any time *)
 
 Record qstate := mkQS {
   q_caller : cpc;
@@ -90,10 +110,12 @@ Record qstate := mkQS {
   q_delays : nat;                (* resend delays that ran to their end *)
   q_fail : option cause;         (* the failed send, if any *)
   q_popped : bool;               (* a reply popped the transaction *)
-  q_result : option result }.    (* set by the select *)
+  q_result : option result;      (* set by the select *)
+  q_budget : nat;                (* limiter units left (exact budget) *)
+  q_rated : nat }.               (* units consumed by this query's writes (a failed socket write gives its unit back) *)
 
-Definition q_init (closed0 : bool) : qstate :=
-  mkQS CStart SIdle HIdle false false None false false closed0 0 0 0 None false None.
+Definition q_init (closed0 : bool) (budget0 : nat) : qstate :=
+  mkQS CStart SIdle HIdle false false None false false closed0 0 0 0 None false None budget0 0.
 
 Inductive label :=
 | LRegister
@@ -115,11 +137,21 @@ Definition sender_fired (s : qstate) : bool := match q_sender s with SWait true 
 Definition sender_waiting (s : qstate) : bool := match q_sender s with SWait _ => true | _ => false end.
 Definition is_some {A} (o : option A) : bool := match o with Some _ => true | None => false end.
 
-(* which error writeToNode may return now *)
+(* the send about to happen is a rated one; with an exact budget it finds the budget empty *)
+Definition rated_now (c : qcfg) (s : qstate) : bool := send_rated (qc_rl c) (q_writes s).
+Definition wait_now (c : qcfg) (s : qstate) : bool := send_wait (qc_rl c) (q_writes s).
+Definition no_budget (c : qcfg) (s : qstate) : bool :=
+  rated_now c s && qc_exact c && Nat.eqb (q_budget s) 0.
+
+(* which error writeToNode may return now (tests in the code's order: closed, blocked, limiter, socket) *)
 Definition cause_ok (c : qcfg) (s : qstate) (x : cause) : bool :=
   if q_closed s then cause_eqb x CClosed
   else if qc_blocked c then cause_eqb x CBlocked
-  else match x with CRate | CSocket | CShort => true | _ => false end.
+  else match x with
+       | CRate => rated_now c s && (negb (qc_exact c) || Nat.eqb (q_budget s) 0)   (* only a rated send asks the limiter *)
+       | CSocket | CShort => negb (no_budget c s)                                  (* the limiter let it through *)
+       | _ => false
+       end.
 
 Definition enabled (c : qcfg) (s : qstate) (l : label) : bool :=
   match l with
@@ -135,6 +167,7 @@ Definition enabled (c : qcfg) (s : qstate) (l : label) : bool :=
   | LHandler => match q_handler s with HPending => true | _ => false end
   | EDelayElapsed => match q_sender s with SWait false => true | _ => false end
   | ESendOk => sender_fired s && Nat.ltb (q_sends s) (qc_tries c) && negb (q_closed s) && negb (qc_blocked c)
+               && negb (no_budget c s)
   | ESendErr x => sender_fired s && Nat.ltb (q_sends s) (qc_tries c) && cause_ok c s x
   | EReplyArrives => q_registered s && negb (q_closed s)
   | ECtxCancel => negb (q_ctx s)
@@ -143,17 +176,22 @@ Definition enabled (c : qcfg) (s : qstate) (l : label) : bool :=
 
 Definition set_caller (s : qstate) (v : cpc) : qstate :=
   mkQS v (q_sender s) (q_handler s) (q_registered s) (q_reply_chan s) (q_senderr_chan s) (q_ctx s)
-       (q_send_cancel s) (q_closed s) (q_sends s) (q_writes s) (q_delays s) (q_fail s) (q_popped s) (q_result s).
+       (q_send_cancel s) (q_closed s) (q_sends s) (q_writes s) (q_delays s) (q_fail s) (q_popped s) (q_result s) (q_budget s) (q_rated s).
 
 (* the caller's select took a branch *)
 Definition selected (s : qstate) (r : result) (rc : bool) (se : option serr) : qstate :=
   mkQS CCancel (q_sender s) (q_handler s) (q_registered s) rc se (q_ctx s)
-       (q_send_cancel s) (q_closed s) (q_sends s) (q_writes s) (q_delays s) (q_fail s) (q_popped s) (Some r).
+       (q_send_cancel s) (q_closed s) (q_sends s) (q_writes s) (q_delays s) (q_fail s) (q_popped s) (Some r) (q_budget s) (q_rated s).
 
 (* the sender returns err: sendErr <- err; close(sendErr) *)
-Definition sender_done (s : qstate) (e : serr) (sends writes : nat) (f : option cause) : qstate :=
+Definition sender_done (s : qstate) (e : serr) (sends writes : nat) (f : option cause) (budget rated : nat) : qstate :=
   mkQS (q_caller s) SDone (q_handler s) (q_registered s) (q_reply_chan s) (Some e) (q_ctx s)
-       (q_send_cancel s) (q_closed s) sends writes (q_delays s) f (q_popped s) (q_result s).
+       (q_send_cancel s) (q_closed s) sends writes (q_delays s) f (q_popped s) (q_result s) budget rated.
+
+(* a datagram that leaves takes one unit when the send is rated (a failed socket write gives it back:
+   `SendLimiter.AllowN(time.Now(), -1)`, so CSocket changes nothing; CShort keeps the unit) *)
+Definition budget_after (c : qcfg) (s : qstate) : nat := if rated_now c s then pred (q_budget s) else q_budget s.
+Definition rated_after (c : qcfg) (s : qstate) : nat := if rated_now c s then S (q_rated s) else q_rated s.
 
 Definition wrote (x : cause) : bool := match x with CShort => true | _ => false end.
 
@@ -161,7 +199,7 @@ Definition step (c : qcfg) (s : qstate) (l : label) : qstate :=
   match l with
   | LRegister =>
       mkQS CSelect (SWait true) (q_handler s) true (q_reply_chan s) (q_senderr_chan s) (q_ctx s)
-           (q_send_cancel s) (q_closed s) (q_sends s) (q_writes s) (q_delays s) (q_fail s) (q_popped s) (q_result s)
+           (q_send_cancel s) (q_closed s) (q_sends s) (q_writes s) (q_delays s) (q_fail s) (q_popped s) (q_result s) (q_budget s) (q_rated s)
   | LSelReply => selected s RReply false (q_senderr_chan s)
   | LSelCtx => selected s RCtx (q_reply_chan s) (q_senderr_chan s)
   | LSelSendErr =>
@@ -171,40 +209,42 @@ Definition step (c : qcfg) (s : qstate) (l : label) : qstate :=
       end
   | LCancelSend =>
       mkQS CJoin (q_sender s) (q_handler s) (q_registered s) (q_reply_chan s) (q_senderr_chan s) (q_ctx s)
-           true (q_closed s) (q_sends s) (q_writes s) (q_delays s) (q_fail s) (q_popped s) (q_result s)
+           true (q_closed s) (q_sends s) (q_writes s) (q_delays s) (q_fail s) (q_popped s) (q_result s) (q_budget s) (q_rated s)
   | LJoin =>
       mkQS CDereg (q_sender s) (q_handler s) (q_registered s) (q_reply_chan s) None (q_ctx s)
-           (q_send_cancel s) (q_closed s) (q_sends s) (q_writes s) (q_delays s) (q_fail s) (q_popped s) (q_result s)
+           (q_send_cancel s) (q_closed s) (q_sends s) (q_writes s) (q_delays s) (q_fail s) (q_popped s) (q_result s) (q_budget s) (q_rated s)
   | LDeregister =>
       mkQS CReturned (q_sender s) (q_handler s) false (q_reply_chan s) (q_senderr_chan s) (q_ctx s)
-           (q_send_cancel s) (q_closed s) (q_sends s) (q_writes s) (q_delays s) (q_fail s) (q_popped s) (q_result s)
-  | LSenderCtx => sender_done s SECtx (q_sends s) (q_writes s) (q_fail s)
-  | LTimeout => sender_done s SETimeout (q_sends s) (q_writes s) (q_fail s)
+           (q_send_cancel s) (q_closed s) (q_sends s) (q_writes s) (q_delays s) (q_fail s) (q_popped s) (q_result s) (q_budget s) (q_rated s)
+  | LSenderCtx => sender_done s SECtx (q_sends s) (q_writes s) (q_fail s) (q_budget s) (q_rated s)
+  | LTimeout => sender_done s SETimeout (q_sends s) (q_writes s) (q_fail s) (q_budget s) (q_rated s)
   | LHandler =>
       mkQS (q_caller s) (q_sender s) HDone (q_registered s) true (q_senderr_chan s) (q_ctx s)
-           (q_send_cancel s) (q_closed s) (q_sends s) (q_writes s) (q_delays s) (q_fail s) (q_popped s) (q_result s)
+           (q_send_cancel s) (q_closed s) (q_sends s) (q_writes s) (q_delays s) (q_fail s) (q_popped s) (q_result s) (q_budget s) (q_rated s)
   | EDelayElapsed =>
       mkQS (q_caller s) (SWait true) (q_handler s) (q_registered s) (q_reply_chan s) (q_senderr_chan s) (q_ctx s)
-           (q_send_cancel s) (q_closed s) (q_sends s) (q_writes s) (S (q_delays s)) (q_fail s) (q_popped s) (q_result s)
+           (q_send_cancel s) (q_closed s) (q_sends s) (q_writes s) (S (q_delays s)) (q_fail s) (q_popped s) (q_result s) (q_budget s) (q_rated s)
   | ESendOk =>
       mkQS (q_caller s) (SWait false) (q_handler s) (q_registered s) (q_reply_chan s) (q_senderr_chan s) (q_ctx s)
            (q_send_cancel s) (q_closed s) (S (q_sends s)) (S (q_writes s)) (q_delays s) (q_fail s) (q_popped s) (q_result s)
+           (budget_after c s) (rated_after c s)
   | ESendErr x =>
       sender_done s (SESend x) (S (q_sends s)) (if wrote x then S (q_writes s) else q_writes s) (Some x)
+                  (if wrote x then budget_after c s else q_budget s) (if wrote x then rated_after c s else q_rated s)
   | EReplyArrives =>
       mkQS (q_caller s) (q_sender s) HPending false (q_reply_chan s) (q_senderr_chan s) (q_ctx s)
-           (q_send_cancel s) (q_closed s) (q_sends s) (q_writes s) (q_delays s) (q_fail s) true (q_result s)
+           (q_send_cancel s) (q_closed s) (q_sends s) (q_writes s) (q_delays s) (q_fail s) true (q_result s) (q_budget s) (q_rated s)
   | ECtxCancel =>
       mkQS (q_caller s) (q_sender s) (q_handler s) (q_registered s) (q_reply_chan s) (q_senderr_chan s) true
-           (q_send_cancel s) (q_closed s) (q_sends s) (q_writes s) (q_delays s) (q_fail s) (q_popped s) (q_result s)
+           (q_send_cancel s) (q_closed s) (q_sends s) (q_writes s) (q_delays s) (q_fail s) (q_popped s) (q_result s) (q_budget s) (q_rated s)
   | EServerClose =>
       mkQS (q_caller s) (q_sender s) (q_handler s) (q_registered s) (q_reply_chan s) (q_senderr_chan s) (q_ctx s)
-           (q_send_cancel s) true (q_sends s) (q_writes s) (q_delays s) (q_fail s) (q_popped s) (q_result s)
+           (q_send_cancel s) true (q_sends s) (q_writes s) (q_delays s) (q_fail s) (q_popped s) (q_result s) (q_budget s) (q_rated s)
   end.
 
 Definition step_en (c : qcfg) (s : qstate) (l : label) : qstate := if enabled c s l then step c s l else s.
 Definition exec (c : qcfg) (s : qstate) (ls : list label) : qstate := fold_left (step_en c) ls s.
-Definition run (c : qcfg) (closed0 : bool) (ls : list label) : qstate := exec c (q_init closed0) ls.
+Definition run (c : qcfg) (closed0 : bool) (budget0 : nat) (ls : list label) : qstate := exec c (q_init closed0 budget0) ls.
 
 (* observables *)
 Definition returned (s : qstate) : bool := match q_caller s with CReturned => true | _ => false end.
